@@ -3,7 +3,7 @@
 # to see which checks raise an alarm on changes aimed at other properties; output: seeded/CROSS.tsv (change, check, exit)
 J="${1:-6}"; OUT=/verif/seeded/CROSS.tsv; W=/tmp/xm
 mkdir -p $W; : > $W/jobs.txt
-for d in /verif/seeded/C*-m*/; do echo "$(basename $d)" >> $W/jobs.txt; done
+for d in /verif/seeded/C*-m${ONLY:-*}/; do echo "$(basename $d)" >> $W/jobs.txt; done
 worker() {
   k=$1; wt=$W/wt$k
   git -C /repo worktree add -q --detach $wt HEAD 2>/dev/null
@@ -20,7 +20,7 @@ worker() {
   git -C /repo worktree remove --force $wt
 }
 for k in $(seq 1 $J); do worker $k & done; wait
-if [ -n "$CHECKS" ] && [ -f $OUT ]; then
+if [ -n "$CHECKS$ONLY" ] && [ -f $OUT ]; then
   # partial re-run: replace the re-run columns in the existing table
   /venv/bin/python - "$OUT" $W <<'PY'
 import csv, glob, sys
